@@ -1,4 +1,6 @@
-(* Proofs/BasedProofs.v — lemmas about Model/Based.v (the repaired based sequencer). *)
+(* Proofs/BasedProofs.v — lemmas about Model/Based.v (the repaired based sequencer), for histories that may
+   contain requests that cannot be used (foreign chain id, malformed LastBatchData) and calls under a
+   cancelled context. *)
 From Coq Require Import NArith List Bool Lia ZifyBool ZifyN ZifyNat.
 From Verif Require Import Model.Based.
 Import ListNotations.
@@ -229,7 +231,7 @@ Proof.
             | None => (scan_pos cfg s, scan_pos cfg s) end) as [last next0].
   destruct q1 as [|e1 q1].
   - pose proof (scan_spec daf (eff_max (c_max c)) (c_tip c) (N.to_nat (last + cf_drift cfg + 1 - next0))
-                  next0 (c_errs c) size ts) as S. cbn zeta in S. destruct S as (_ & _ & _ & S4).
+                  next0 (call_errs c) size ts) as S. cbn zeta in S. destruct S as (_ & _ & _ & S4).
     inversion H; subst. cbn [mem_q dur_q]. split; [reflexivity|].
     rewrite batch_of_mk, total_app. specialize (PC ltac:(lia)). specialize (S4 PC). lia.
   - inversion H; subst. cbn [mem_q dur_q]. split; [reflexivity|].
@@ -280,10 +282,10 @@ Proof.
   destruct q1 as [|e1 q1].
   - pose proof (scan_spec daf (eff_max (c_max c)) (c_tip c)
                   (N.to_nat (scan_pos cfg s + cf_drift cfg + 1 - scan_pos cfg s))
-                  (scan_pos cfg s) (c_errs c) size ts) as S. cbn zeta in S.
+                  (scan_pos cfg s) (call_errs c) size ts) as S. cbn zeta in S.
     remember (scan daf (eff_max (c_max c)) (c_tip c)
                   (N.to_nat (scan_pos cfg s + cf_drift cfg + 1 - scan_pos cfg s))
-                  (scan_pos cfg s) (c_errs c) size ts) as r eqn:Hr.
+                  (scan_pos cfg s) (call_errs c) size ts) as r eqn:Hr.
     destruct S as (S1 & S2 & S3 & _).
     inversion H; subst s' rp lg. clear H. rewrite batch_of_mk.
     rewrite scan_pos_mk by lia. cbn [mem_q app].
@@ -295,6 +297,32 @@ Proof.
     cbn [scan_stop sr_txs sr_push sr_next]. rewrite scan_pos_mk by lia. cbn [mem_q].
     rewrite !app_nil_r. repeat split; try lia.
     rewrite <- I, <- PA. now rewrite !app_assoc.
+Qed.
+
+(* ---- any request: usable or not -------------------------------------------------------------------------------- *)
+Lemma gnb_usable : forall cfg daf s c l, unusable c = None ->
+  gnb cfg daf s c l = get_next_batch cfg daf s c l.
+Proof. intros cfg daf s c l U. unfold gnb. now rewrite U. Qed.
+
+Lemma gnb_unusable : forall cfg daf s c l e, unusable c = Some e ->
+  gnb cfg daf s c l = (s, MErr e, []).
+Proof. intros cfg daf s c l e U. unfold gnb. now rewrite U. Qed.
+
+(* the size limit, for every request; the queue in memory is the stored queue after the call if it was before *)
+Lemma gnb_size : forall cfg daf s c l s' rp lg,
+  gnb cfg daf s c l = (s', rp, lg) -> total (batch_of rp) <= eff_max (c_max c).
+Proof.
+  intros cfg daf s c l s' rp lg H. unfold gnb in H. destruct (unusable c) as [e|].
+  - inversion H; subst. cbn [batch_of total fold_right]. pose proof (eff_max_pos (c_max c)). lia.
+  - eapply gnb_always; eauto.
+Qed.
+
+Lemma gnb_saved : forall cfg daf s c l s' rp lg,
+  mem_q s = dur_q s -> gnb cfg daf s c l = (s', rp, lg) -> mem_q s' = dur_q s'.
+Proof.
+  intros cfg daf s c l s' rp lg E H. unfold gnb in H. destruct (unusable c) as [e|].
+  - inversion H; subst. exact E.
+  - eapply gnb_always; eauto.
 Qed.
 
 (* ---- histories ------------------------------------------------------------------------------------------------ *)
@@ -316,6 +344,12 @@ Proof.
   inversion H. exists t. split; [|reflexivity]. apply in_rev. rewrite E. now left.
 Qed.
 
+Lemma step_unusable : forall cfg daf y c e, unusable c = Some e ->
+  step cfg daf y (ICall c) = (y, Some (MErr e, [])).
+Proof.
+  intros cfg daf [s l] c e U. cbn [step sy_st sy_lbd]. rewrite (gnb_unusable _ _ _ _ _ _ U). reflexivity.
+Qed.
+
 Lemma step_call_inv : forall cfg daf y c rel,
   wf_da daf -> Inv cfg daf y rel ->
   match c_lbd c with LRaw _ => false | _ => true end = true ->
@@ -325,22 +359,28 @@ Lemma step_call_inv : forall cfg daf y c rel,
     scan_pos cfg (sy_st y) <= scan_pos cfg (sy_st y') /\
     scan_pos cfg (sy_st y') <= N.max (scan_pos cfg (sy_st y)) (c_tip c + 1).
 Proof.
-  intros cfg daf y c rel W (I1 & I2 & I3) M. unfold step.
+  intros cfg daf y c rel W (I1 & I2 & I3) M.
+  destruct (unusable c) as [e|] eqn:U.
+  { (* a request that cannot be used: nothing changes *)
+    exists y, (MErr e), []. split; [exact (step_unusable cfg daf y c e U)|].
+    cbn [batch_of]. rewrite app_nil_r. split; [repeat split; assumption|lia]. }
+  unfold step. rewrite (gnb_usable _ _ _ _ _ U).
   destruct (get_next_batch cfg daf (sy_st y) c (lbd_of (sy_lbd y) c)) as [[s' rp] lg] eqn:G.
   eexists _, _, _. split; [reflexivity|].
   pose proof (gnb_always _ _ _ _ _ _ _ _ G) as [GA _].
   assert (L : forall h, lbd_of (sy_lbd y) c = Some h -> h < scan_pos cfg (sy_st y)).
-  { unfold lbd_of. destruct (c_lbd c); [exact I3|discriminate|discriminate]. }
+  { unfold lbd_of. destruct (c_lbd c); [exact I3|discriminate|discriminate|discriminate]. }
   unfold carry in I2.
   pose proof (gnb_inv _ _ _ _ _ _ _ _ _ W I2 L G) as (J1 & J2 & J3).
   split; [|split; assumption]. unfold Inv, carry. cbn [sy_st sy_lbd].
   split; [exact GA|]. split; [exact J1|].
-  intros h Hh. destruct rp as [|txs ts].
+  intros h Hh. destruct rp as [|txs ts|e].
   - apply I3 in Hh. lia.
   - apply last_height_in in Hh. destruct Hh as (t & Ht & Hth). cbn [batch_of] in J1.
     assert (Hin : In t (stream daf (cf_start cfg) (scan_pos cfg s'))).
     { rewrite <- J1. apply in_or_app. left. apply in_or_app. now right. }
     apply (stream_heights daf W) in Hin; [lia|apply scan_pos_ge].
+  - apply I3 in Hh. lia.
 Qed.
 
 Lemma released_call : forall cfg daf y c h y' rp lg,
@@ -406,20 +446,22 @@ Theorem size_bound : forall cfg daf h c,
   total (batch_of (call_resp cfg daf (final cfg daf init_sys h) c)) <= eff_max (c_max c).
 Proof.
   intros cfg daf h c. unfold call_resp.
-  destruct (get_next_batch cfg daf (sy_st (final cfg daf init_sys h)) c
+  destruct (gnb cfg daf (sy_st (final cfg daf init_sys h)) c
               (lbd_of (sy_lbd (final cfg daf init_sys h)) c)) as [[s' rp] lg] eqn:G.
-  cbn [fst snd]. eapply gnb_always; eauto.
+  cbn [fst snd]. eapply gnb_size; eauto.
 Qed.
 
-(* C20: what did not fit comes first in the next batch, for every history and every LastBatchData *)
+(* C20: what did not fit comes first in the next batch, for every history and every LastBatchData that can be used *)
 Theorem carry_first : forall cfg daf h c t rest,
+  unusable c = None ->
   carry (final cfg daf init_sys h) = t :: rest ->
   (exists txs ts, call_resp cfg daf (final cfg daf init_sys h) c = MBatch (t :: txs) ts) \/
   (call_resp cfg daf (final cfg daf init_sys h) c = MNone /\
    carry (after_call cfg daf (final cfg daf init_sys h) c) = t :: rest /\
    eff_max (c_max c) < t_sz t).
 Proof.
-  intros cfg daf h c t rest F. unfold call_resp, after_call, step, carry in *.
+  intros cfg daf h c t rest U F. unfold call_resp, after_call, step, carry in *.
+  rewrite (gnb_usable _ _ _ _ _ U).
   destruct (get_next_batch cfg daf (sy_st (final cfg daf init_sys h)) c
               (lbd_of (sy_lbd (final cfg daf init_sys h)) c)) as [[s' rp] lg] eqn:G.
   cbn [fst snd sy_st]. eapply gnb_carry_first; eauto.
@@ -435,8 +477,8 @@ Proof.
   - destruct it as [c|].
     + cbn [no_restarts filter trace final]. fold (no_restarts h).
       assert (E' : mem_q (sy_st (fst (step cfg daf y (ICall c)))) = dur_q (sy_st (fst (step cfg daf y (ICall c))))).
-      { unfold step. destruct (get_next_batch cfg daf (sy_st y) c (lbd_of (sy_lbd y) c)) as [[s' rp] lg] eqn:G.
-        cbn [fst sy_st]. eapply gnb_always; eauto. }
+      { unfold step. destruct (gnb cfg daf (sy_st y) c (lbd_of (sy_lbd y) c)) as [[s' rp] lg] eqn:G.
+        cbn [fst sy_st]. eapply gnb_saved; eauto. }
       destruct (IH _ E') as [A B]. rewrite A, B. split; reflexivity.
     + cbn [no_restarts filter]. fold (no_restarts h). cbn [trace final].
       rewrite (step_restart _ _ _ E). cbn [fst snd]. apply IH. exact E.
@@ -478,38 +520,100 @@ Qed.
 (* with an empty carry-over queue, a call whose first retrieval is answered advances the scan position *)
 Theorem progress_scan : forall cfg daf h c txs, wf_da daf ->
   manager_lbd (h ++ [ICall c]) = true ->
+  unusable c = None ->
   carry (final cfg daf init_sys h) = [] ->
-  retrieve daf (c_tip c) (scan_pos cfg (sy_st (final cfg daf init_sys h))) (hd 0 (c_errs c)) = DOk txs ->
+  retrieve daf (c_tip c) (scan_pos cfg (sy_st (final cfg daf init_sys h))) (hd 0 (call_errs c)) = DOk txs ->
   scan_pos cfg (sy_st (final cfg daf init_sys h)) <
   scan_pos cfg (sy_st (after_call cfg daf (final cfg daf init_sys h) c)).
 Proof.
-  intros cfg daf h c txs W M F R.
+  intros cfg daf h c txs W M U F R.
   unfold manager_lbd in M. rewrite forallb_app in M. apply andb_prop in M. destruct M as [M1 M2].
   cbn [forallb] in M2. rewrite andb_true_r in M2.
   destruct (run_inv cfg daf W h init_sys [] M1 (inv_init cfg daf)) as ((I1 & I2 & I3) & _).
   remember (final cfg daf init_sys h) as y eqn:Hy. clear Hy.
   pose proof (scan_pos_ge cfg (sy_st y)) as G.
-  unfold after_call, step, get_next_batch. unfold carry in F.
+  unfold after_call, step. rewrite (gnb_usable _ _ _ _ _ U). unfold get_next_batch. unfold carry in F.
   destruct (pop_flat_nil (eff_max (c_max c)) (mem_q (sy_st y)) 0 None F) as [ts' P]. rewrite P.
   assert (E : match lbd_of (sy_lbd y) c with
             | Some h => if scan_pos cfg (sy_st y) <? h then (h, h + 1) else (scan_pos cfg (sy_st y), scan_pos cfg (sy_st y))
             | None => (scan_pos cfg (sy_st y), scan_pos cfg (sy_st y)) end = (scan_pos cfg (sy_st y), scan_pos cfg (sy_st y))).
-  { unfold lbd_of. destruct (c_lbd c) as [| |x]; [|reflexivity|discriminate].
+  { unfold lbd_of. destruct (c_lbd c) as [| |x|]; [|reflexivity|discriminate|reflexivity].
     destruct (sy_lbd y) as [x|]; [|reflexivity]. specialize (I3 x eq_refl).
     destruct (scan_pos cfg (sy_st y) <? x) eqn:E; [lia|reflexivity]. }
   rewrite E. cbn [fst sy_st].
   destruct (N.to_nat (scan_pos cfg (sy_st y) + cf_drift cfg + 1 - scan_pos cfg (sy_st y))) as [|f] eqn:Fu; [lia|].
-  pose proof (scan_first_ok daf (eff_max (c_max c)) (c_tip c) f (scan_pos cfg (sy_st y)) (c_errs c) ts' txs
+  pose proof (scan_first_ok daf (eff_max (c_max c)) (c_tip c) f (scan_pos cfg (sy_st y)) (call_errs c) ts' txs
                 (eff_max_pos _) R) as S.
   rewrite scan_pos_mk by lia. exact S.
 Qed.
 
 (* a carry-over head that fits the limit is released by the next call *)
 Theorem progress_carry : forall cfg daf h c t rest,
+  unusable c = None ->
   carry (final cfg daf init_sys h) = t :: rest ->
   t_sz t <= eff_max (c_max c) ->
   exists txs ts, call_resp cfg daf (final cfg daf init_sys h) c = MBatch (t :: txs) ts.
 Proof.
-  intros cfg daf h c t rest F L.
-  destruct (carry_first cfg daf h c t rest F) as [A|(_ & _ & B)]; [exact A|lia].
+  intros cfg daf h c t rest U F L.
+  destruct (carry_first cfg daf h c t rest U F) as [A|(_ & _ & B)]; [exact A|lia].
+Qed.
+
+(* ---- requests that cannot be used --------------------------------------------------------------------------------- *)
+Lemma final_app : forall cfg daf h1 h2 y,
+  final cfg daf y (h1 ++ h2) = final cfg daf (final cfg daf y h1) h2.
+Proof. intros cfg daf. induction h1 as [|it h1 IH]; intros h2 y; [reflexivity|]. cbn [app final]. apply IH. Qed.
+
+Lemma trace_app : forall cfg daf h1 h2 y,
+  trace cfg daf y (h1 ++ h2) = trace cfg daf y h1 ++ trace cfg daf (final cfg daf y h1) h2.
+Proof.
+  intros cfg daf. induction h1 as [|it h1 IH]; intros h2 y; [reflexivity|].
+  cbn [app trace final]. destruct (snd (step cfg daf y it)) as [[rp lg]|]; rewrite IH; reflexivity.
+Qed.
+
+Lemma released_app : forall cfg daf h1 h2 y,
+  released cfg daf y (h1 ++ h2) = released cfg daf y h1 ++ released cfg daf (final cfg daf y h1) h2.
+Proof. intros. unfold released. now rewrite trace_app, map_app, concat_app. Qed.
+
+(* one such call: an error, and the system (carry-over in memory, stored queue, stored scan position, and what
+   the caller will pass next) is what it was; no DA height is retrieved *)
+Theorem unusable_call : forall cfg daf y c e, unusable c = Some e ->
+  call_resp cfg daf y c = MErr e /\
+  after_call cfg daf y c = y /\
+  snd (step cfg daf y (ICall c)) = Some (MErr e, []).
+Proof.
+  intros cfg daf y c e U. unfold call_resp, after_call.
+  rewrite (step_unusable cfg daf y c e U), (gnb_unusable _ _ _ _ _ _ U). repeat split.
+Qed.
+
+(* any number of them, anywhere in a history: the released sequence and the final system are those of the
+   history without them *)
+Theorem unusable_interleaved : forall cfg daf h y,
+  released cfg daf y h = released cfg daf y (usable_only h) /\
+  final cfg daf y h = final cfg daf y (usable_only h).
+Proof.
+  intros cfg daf. induction h as [|it h IH]; intros y; [split; reflexivity|].
+  unfold usable_only. cbn [filter]. fold (usable_only h).
+  destruct it as [c|]; cbn [usable_item].
+  - destruct (unusable c) as [e|] eqn:U.
+    + unfold released. cbn [trace final]. rewrite (step_unusable cfg daf y c e U). cbn [fst snd map concat batch_of app].
+      apply IH.
+    + unfold released in *. cbn [trace final].
+      destruct (IH (fst (step cfg daf y (ICall c)))) as [A B].
+      destruct (snd (step cfg daf y (ICall c))) as [[rp lg]|].
+      * cbn [map concat]. rewrite A, B. split; reflexivity.
+      * rewrite A, B. split; reflexivity.
+  - unfold released in *. cbn [trace final step snd fst]. apply IH.
+Qed.
+
+Theorem unusable_no_effect : forall cfg daf h1 h2 c e, unusable c = Some e ->
+  call_resp cfg daf (final cfg daf init_sys h1) c = MErr e /\
+  after_call cfg daf (final cfg daf init_sys h1) c = final cfg daf init_sys h1 /\
+  released cfg daf init_sys (h1 ++ ICall c :: h2) = released cfg daf init_sys (h1 ++ h2) /\
+  final cfg daf init_sys (h1 ++ ICall c :: h2) = final cfg daf init_sys (h1 ++ h2).
+Proof.
+  intros cfg daf h1 h2 c e U.
+  destruct (unusable_call cfg daf (final cfg daf init_sys h1) c e U) as (A & B & _).
+  split; [exact A|]. split; [exact B|].
+  rewrite !released_app, !final_app. unfold released. cbn [trace final].
+  rewrite (step_unusable cfg daf _ c e U). cbn [fst snd map concat batch_of app]. split; reflexivity.
 Qed.
